@@ -27,6 +27,22 @@ impl Group for PoolGroup {
         let timeout = *rng.pick(&[50u64, 100, 200, 400, 1000]);
         let min = *rng.pick(&[0u64, 1, 2, 5]);
         let mut lines = vec![format!("pool reset {interval} {timeout} {min}")];
+        if rng.chance(1, 2) {
+            // structured history: several idle sessions, some die while idle, the rest expire together
+            let k = rng.range(1, 6);
+            for _ in 0..k { lines.push("pool mk".into()); }
+            for i in 0..k { if rng.chance(5, 6) { lines.push(format!("pool add {i}")); } }
+            if rng.chance(1, 2) { lines.push(format!("pool adv {}", rng.pick(&[10u64, 40, 100]))); }
+            if rng.chance(1, 3) { lines.push("pool get".into()); }
+            for i in 0..k { if rng.chance(1, 3) { lines.push(format!("pool die {i}")); } }
+            if rng.chance(1, 3) { let i = rng.below(k); lines.push(format!("pool open {i}")); }
+            lines.push(if rng.chance(1, 4) { "pool cleanup".to_string() } else { format!("pool adv {}", rng.pick(&[timeout, timeout + interval, 2 * timeout + interval, 50, 1000])) });
+            lines.push("pool state".into());
+            if rng.chance(1, 2) { lines.push("pool cleanup".into()); lines.push("pool state".into()); }
+            for _ in 0..k { lines.push("pool get".into()); }
+            lines.push("pool state".into());
+            return Case { lines };
+        }
         let mut n = 0u64;
         for _ in 0..rng.range(4, 30) {
             let k = rng.below(100);
@@ -59,6 +75,9 @@ impl Group for PoolGroup {
             // oracle bookkeeping
             let mut open_streams: Vec<u32> = vec![];      // per session: streams the harness holds open
             let mut held: Vec<Arc<anytls_rs::session::Stream>> = vec![];
+            // sessions put into the idle map and not handed out since (the reaper removes an entry only by
+            // closing its session, `get` only drops closed entries: an open member must still be in the map)
+            let mut idle_shadow: Vec<usize> = vec![];
             for line in &case.lines {
                 let toks: Vec<&str> = line.split_whitespace().collect();
                 let slot_start = (tokio::time::Instant::now() - t0).as_millis() as u64;
@@ -82,13 +101,22 @@ impl Group for PoolGroup {
                     ["pool", "add", i] => {
                         let (Some(p), Some(n)) = (pool.as_ref(), i.parse::<usize>().ok().and_then(|i| nodes.get(i))) else { out.obs.push("nonode".into()); continue; };
                         p.add_idle_session(n.session.clone()).await;
+                        let idx: usize = i.parse().unwrap();
+                        if !n.session.is_closed() && !idle_shadow.contains(&idx) { idle_shadow.push(idx); }
                         "ok".into()
                     }
                     ["pool", "get"] => {
                         let Some(p) = pool.as_ref() else { out.obs.push("nonode".into()); continue; };
-                        match p.get_idle_session().await {
+                        let healthy: Vec<usize> = idle_shadow.iter().copied().filter(|i| !nodes[*i].session.is_closed()).collect();
+                        let got = p.get_idle_session().await;
+                        // O (C13/C12): a request is served by an idle, healthy session whenever one exists
+                        if got.is_none() && !healthy.is_empty() {
+                            out.oracle.push(OracleFail { sig: "healthy_idle_session_ignored/get_idle_session".into(), detail: format!("no session returned although the open sessions {healthy:?} are idle in the pool") });
+                        }
+                        match got {
                             Some(s) => {
                                 let idx = nodes.iter().position(|n| Arc::ptr_eq(&n.session, &s)).unwrap_or(999);
+                                idle_shadow.retain(|x| *x != idx);
                                 // O (C12): the pool never returns a session that is already closed
                                 if s.is_closed() { out.oracle.push(OracleFail { sig: "closed_session_handed_out/get_idle_session".into(), detail: format!("session {idx} is closed") }); }
                                 format!("some {idx}")
